@@ -1,5 +1,8 @@
 (* C12 -- exceptions and tracebacks cross the process boundary intact.
    Only statements here; proofs live in Proofs/EInfoProofs.v.
+   The switch Model.EInfo.mee_repaired is TRUE (= /repo: MaybeEncodingError has the repaired
+   __reduce__); theorems named *_refuted / *_never_settles are about the counterfactual value
+   false (the tree before the repair), see the comment at D20 below.
    Gen/K_einfo.v is regenerated from /repo/billiard/einfo.py and pool.py on every run. *)
 From Coq Require Import String.
 From Coq Require Import ZArith List Bool.
@@ -31,6 +34,18 @@ Theorem C12_code_constants :
   K_einfo.mee_has_reduce = mee_repaired.
 Proof. exact gen_constants. Qed.
 Print Assumptions C12_code_constants.
+
+(* MaybeEncodingError.__reduce__ and the rebuild function it names are not merely present:
+   their bodies were matched statement by statement by the translator and emitted as data
+   (K_einfo.mee_reduce_attrs / mee_rebuild_sets / mee_rebuild_init); executing that data
+   (gen_unpickle_mee) on any object of the shape the constructor builds gives the object back,
+   which is what the model's unpickle_exc says under the current switch.  A __reduce__ returning
+   e.g. (cls, (self.exc, self.value)) is a translator error; one that passes the attributes in
+   another order, or a rebuild function that stores them differently, breaks this proof. *)
+Theorem C12_code_mee_rebuild : forall x,
+    mee_wf x -> gen_unpickle_mee x = Some x /\ unpickle_exc mee_repaired x = Some x.
+Proof. exact gen_mee_rebuild. Qed.
+Print Assumptions C12_code_mee_rebuild.
 
 (* ---------------- depth bound ---------------- *)
 
@@ -97,8 +112,34 @@ Theorem C12_roundtrip_idempotent : forall fx e n,
 Proof. exact roundtrip_idempotent_settled. Qed.
 Print Assumptions C12_roundtrip_idempotent.
 
-(* D20.  The unrestricted statement is FALSE for the pinned tree (switch off): a witness,
-   built with the model's constructors exactly as the worker builds it. *)
+(* The same, stated explicitly about PICKLABLE records (pickle.dumps of the record does not
+   raise: no AUnp leaf in args or attributes).  C12_roundtrip_stable_partial also "holds" for
+   records whose real dumps raises, because the model's roundtrip_gen never consults pickle_err;
+   this statement has the scope of the property text, and adds that every record along the chain
+   is again picklable, so each dumps in the chain is defined. *)
+Theorem C12_roundtrip_stable_picklable : forall fx e n,
+    payload_pickle_err (PInfo e) = None ->
+    stable_class fx (exc_of (ei_exc e)) -> (1 <= n)%nat ->
+    exists e', iter_rt fx n e = Some e' /\ essence e' = essence e /\
+               payload_pickle_err (PInfo e') = None.
+Proof. exact roundtrip_stable_picklable. Qed.
+Print Assumptions C12_roundtrip_stable_picklable.
+
+(* ... and a record that does not pickle is never transported at all: put raises *)
+Theorem C12_unpicklable_record_not_sent : forall env n job i ok e r,
+    env n = PutOk -> payload_pickle_err (PInfo e) = Some r ->
+    do_put env n (MReady job i ok (PInfo e)) = PutExc r.
+Proof. exact unpicklable_record_not_sent. Qed.
+Print Assumptions C12_unpicklable_record_not_sent.
+
+(* D20 -- COUNTERFACTUAL.  The two theorems below are about [iter_rt false], i.e. about the
+   switch value of the tree as it was BEFORE the repair (MaybeEncodingError without __reduce__,
+   commit 5caeb8f in /repo added it).  The code under test has mee_repaired = true
+   (C12_code_constants ties that line to /repo on every run), so these are NOT statements
+   about the current /repo: they record why the repair was needed, and what a tree that drops
+   the __reduce__ again would do (the check would then also fail at C12_code_constants).
+   With the switch off the unrestricted statement is FALSE: a witness, built with the model's
+   constructors exactly as the worker builds it. *)
 Definition d20_witness : option einfo :=
   match construct CMee [AOpaque (s2l "ValueError('x')"); AList [AInt 1; AStr (s2l "a")]] with
   | Some w => mk_einfo 125 CMee w [mk_fr (s2l "pool.py") (s2l "workloop") 366] 0 false
@@ -125,6 +166,76 @@ Theorem C12_maybe_encoding_error_never_settles : forall n e,
                   x_args (exc_of (ei_exc e2)) <> x_args (exc_of (ei_exc e1)).
 Proof. exact mee_never_settles. Qed.
 Print Assumptions C12_maybe_encoding_error_never_settles.
+
+(* ---------------- the main clause: a raising task ---------------- *)
+
+(* A task raises exception object x of type t (any class; base exceptions are not special) with
+   live traceback [live] and traceback text [text]; x is picklable (pickling it does not raise, and
+   it is a plain exception with a well-formed __dict__ or a MaybeEncodingError as constructed);
+   the pipe accepts the two messages.  Then the worker sends the ACK and EXACTLY ONE READY for the
+   job, ok = False, carrying the record e = ExceptionInfo((t, x, live)), and continues with put
+   index n+2.  e holds type, exception (wrapped with the text), text and the copied traceback
+   c = Traceback(live), at most mf+3 nodes; and for EVERY k >= 1 the k-fold pickle round trip of e
+   (k = 1 is what the parent reads) exists, is again picklable, and has exactly type t, the class,
+   args and attributes of x, the text, and c.  Stated for the semantics the check runs
+   (mee_repaired); EInfoProofs.raising_task_delivered is the same for every switch value. *)
+Theorem C12_raising_task_delivered : forall mf env n job i t x live text ptb ptext,
+    live <> [] ->
+    env n = PutOk -> env (S n) = PutOk ->
+    picklable_exc mee_repaired x ->
+    exists c e,
+      copy_tb mf live = Some c /\
+      (-1 <= mf -> Z.of_nat (length c) <= mf + 3) /\
+      mk_einfo mf t x live text false = Some e /\
+      e = mk_ei t (EWT x text) c text false /\
+      handle_task mf env n job i (Raises t x live text) ptb ptext =
+      ([MAck job i; MReady job i false (PInfo e)], inr (S (S n))) /\
+      mreadies (fst (handle_task mf env n job i (Raises t x live text) ptb ptext)) = [(job, i)] /\
+      forall k, (1 <= k)%nat ->
+        exists e', iter_rt mee_repaired k e = Some e' /\
+                   essence e' = (t, x_cls x, x_args x, x_attrs x, text, c) /\
+                   payload_pickle_err (PInfo e') = None.
+Proof. exact (raising_task_delivered mee_repaired). Qed.
+Print Assumptions C12_raising_task_delivered.
+
+(* the same inside the worker loop: these two messages, then the rest of the script *)
+Theorem C12_raising_task_in_loop : forall mf env mt n job i t x live text ptb ptext rest cpl,
+    live <> [] -> env n = PutOk -> env (S n) = PutOk -> picklable_exc mee_repaired x ->
+    loop_guard mt cpl = true ->
+    exists e, mk_einfo mf t x live text false = Some e /\
+      run_loop mf env mt (RTask job i (Raises t x live text) ptb ptext :: rest) cpl n =
+      ([MAck job i; MReady job i false (PInfo e)] ++ fst (run_loop mf env mt rest (cpl + 1) (S (S n))),
+       snd (run_loop mf env mt rest (cpl + 1) (S (S n)))).
+Proof. exact (raising_task_in_loop mee_repaired). Qed.
+Print Assumptions C12_raising_task_in_loop.
+
+(* Companion: the raised exception does NOT pickle (r = repr of what pickle raises).  The first
+   READY is not sent; the job is answered by exactly one READY, ok = False, carrying the
+   MaybeEncodingError record with args (r, repr(the ExceptionInfo)), the failure's copied traceback
+   and text; put index n+3.  That record is picklable and (MaybeEncodingError.__reduce__ restoring
+   the stored strings, as in /repo: fx = mee_repaired = true) survives every k >= 1 round trips. *)
+Theorem C12_raising_task_unpicklable : forall mf env n job i t x live text ptb ptext r,
+    live <> [] -> ptb <> [] ->
+    env n = PutOk -> env (S n) = PutOk -> env (S (S n)) = PutOk ->
+    exc_pickle_err x = Some r ->
+    exists e e2,
+      mk_einfo mf t x live text false = Some e /\
+      do_put env (S n) (MReady job i false (PInfo e)) = PutExc r /\
+      encoding_record mf r (PInfo e) ptb ptext = Some e2 /\
+      handle_task mf env n job i (Raises t x live text) ptb ptext =
+      ([MAck job i; MReady job i false (PInfo e2)], inr (S (S (S n)))) /\
+      mreadies (fst (handle_task mf env n job i (Raises t x live text) ptb ptext)) = [(job, i)] /\
+      ei_type e2 = CMee /\
+      exc_of (ei_exc e2) = mk_exc CMee [AStr r; AStr einfo_repr]
+                                  [(s_exc, AStr r); (s_value, AStr einfo_repr)] /\
+      (exists c, copy_tb mf ptb = Some c /\ ei_tb e2 = c) /\
+      ei_text e2 = ptext /\
+      payload_pickle_err (PInfo e2) = None /\
+      (mee_repaired = true -> forall k, (1 <= k)%nat ->
+         exists e', iter_rt mee_repaired k e2 = Some e' /\ essence e' = essence e2 /\
+                    payload_pickle_err (PInfo e') = None).
+Proof. exact (raising_task_unpicklable mee_repaired). Qed.
+Print Assumptions C12_raising_task_unpicklable.
 
 (* ---------------- the worker's encoding-error path ---------------- *)
 
@@ -210,3 +321,49 @@ Example C12_encoding_error_witness :
                 [RTask 1 0 (Returns v) [mk_fr (s2l "pool.py") (s2l "workloop") 366] 0;
                  RTask 2 0 (Returns (AInt 5)) [] 0] 0 0) = EndScript.
 Proof. vm_compute. repeat split; reflexivity. Qed.
+
+(* a concrete raising task: ValueError-like exception with an attribute, 130 live frames, working
+   pipe.  The hypotheses of C12_raising_task_delivered hold, and (computed, not via the theorem)
+   the worker's output is [ACK; READY false record], the record's chain is 127 frames + marker,
+   and four round trips leave (type, class, args, attrs, text, chain) as the theorem says. *)
+Example C12_raising_task_witness :
+  let x := mk_exc (CPlain 3) [AStr (s2l "boom"); AInt 7] [(s2l "foo", ANone)] in
+  let live := repeat (mk_fr (s2l "t.py") (s2l "f") 10) 129 ++ [mk_fr (s2l "t.py") (s2l "g") 20] in
+  let env := fun _ : nat => PutOk in
+  live <> [] /\ env 0%nat = PutOk /\ env 1%nat = PutOk /\ picklable_exc mee_repaired x /\
+  match handle_task 125 env 0 1 0 (Raises (CPlain 3) x live 42) [] 0 with
+  | ([MAck 1 0; MReady 1 0 false (PInfo e)], inr 2%nat) =>
+      length (ei_tb e) = 128%nat /\ last (ei_tb e) marker = marker /\
+      option_map essence (iter_rt mee_repaired 4 e) =
+      Some (CPlain 3, CPlain 3, x_args x, x_attrs x, 42, ei_tb e)
+  | _ => False
+  end.
+Proof.
+  cbv zeta. split; [discriminate|]. split; [reflexivity|]. split; [reflexivity|].
+  split.
+  - split; [reflexivity|]. cbn [x_cls x_attrs map fst]. constructor; [intros []|constructor].
+  - vm_compute. repeat split; reflexivity.
+Qed.
+
+(* a task raising an exception that holds an unpicklable object two containers deep, and a task
+   raising a MaybeEncodingError: hypotheses of the companion / of the main theorem hold *)
+Example C12_raising_task_unpicklable_witness :
+  let x := mk_exc (CPlain 5) [AInt 1; AList [ATuple [AUnp 9]]] [] in
+  let env := fun _ : nat => PutOk in
+  let ptb := [mk_fr (s2l "pool.py") (s2l "workloop") 403] in
+  exc_pickle_err x = Some (unp_err 9) /\ ptb <> [] /\
+  match handle_task 125 env 0 4 0 (Raises (CPlain 5) x [mk_fr (s2l "t.py") (s2l "g") 20] 7) ptb 8 with
+  | ([MAck 4 0; MReady 4 0 false (PInfo e2)], inr 3%nat) =>
+      ei_type e2 = CMee /\ x_args (exc_of (ei_exc e2)) = [AStr (unp_err 9); AStr einfo_repr] /\
+      option_map essence (iter_rt mee_repaired 3 e2) = Some (essence e2)
+  | _ => False
+  end /\
+  (forall w, construct CMee [AOpaque (s2l "E()"); AInt 3] = Some w -> picklable_exc mee_repaired w).
+Proof.
+  cbv zeta. split; [vm_compute; reflexivity|]. split; [discriminate|].
+  split; [vm_compute; repeat split; reflexivity|].
+  intros w Hw. split.
+  - cbn in Hw. inversion Hw; subst w. reflexivity.
+  - rewrite (proj1 (construct_mee_wf _ _ _ Hw)). split; [reflexivity|].
+    exact (construct_mee_wf _ _ _ Hw).
+Qed.
